@@ -25,7 +25,7 @@ def variants(x):
 
 
 def search(ck, tier, seed):
-    for e in catalogue.entries(tier):
+    for e in catalogue.entries(tier) + catalogue.boundary_entries():
         for mode in ("eval", "train"):
             if mode == "train" and not e["train_ok"]:
                 pass
